@@ -35,10 +35,13 @@ func (s *Semaphore) Acquire(cancel <-chan struct{}, timeout time.Duration) bool 
 	// await token, cancel or deadline
 	select {
 	case <-s.tokens:
+		verifAt("sem.acquired", true)
 		return true
 	case <-cancel:
+		verifAt("sem.acquired", false)
 		return false
 	case <-deadline:
+		verifAt("sem.acquired", false)
 		return false
 	}
 }
@@ -46,6 +49,7 @@ func (s *Semaphore) Acquire(cancel <-chan struct{}, timeout time.Duration) bool 
 // Release will release a token to the semaphore. It is critical that this is
 // only done once per token.
 func (s *Semaphore) Release() {
+	verifAt("sem.release")
 	select {
 	case s.tokens <- struct{}{}:
 	default:
